@@ -134,6 +134,26 @@ def run(payload):
                     zl = [z.kcals_units, z.fat_units, z.protein_units][IDX[nutrient]]
                     if zl != u:
                         fail("label-roundtrip", f"{nutrient}: '{u}' -> '{v}' -> back is labelled '{zl}'", s, nutrient=nutrient, u=u, v=v)
+                    if x.is_list_monthly() and v != base_of(u):
+                        # the same series written with Python ints (an integer-typed array): conversion must not quantise it
+                        stats["shape_cases"] += 1
+                        ivals = [int(rng.randint(1, 9)) for _ in range(3)]
+                        try:
+                            with quiet():
+                                xi_ = mkfood(nutrient, u, ivals)
+                                for nm_ in ("kcals", "fat", "protein"):
+                                    setattr(xi_, nm_, np.array([int(t) for t in np.round(np.asarray(getattr(xi_, nm_)) * 4)]))
+                                xf_ = mkfood(nutrient, u, ivals)
+                                for nm_ in ("kcals", "fat", "protein"):
+                                    setattr(xf_, nm_, np.array([float(t) for t in np.round(np.asarray(getattr(xf_, nm_)) * 4)]))
+                                yi_ = xi_.in_units(*targets(nutrient, v))
+                                yf_ = xf_.in_units(*targets(nutrient, v))
+                            if rel(val(yi_, nutrient), val(yf_, nutrient)) > TOL:
+                                fail("integer-series-quantised", f"{nutrient}: '{u}' -> '{v}': an integer-typed series converts to "
+                                     f"{list(np.asarray(val(yi_, nutrient)))[:3]}, the same numbers as floats to {list(np.asarray(val(yf_, nutrient)))[:3]}",
+                                     s, nutrient=nutrient, u=u, v=v)
+                        except BaseException as e:
+                            fail("conversion-rejected", f"{nutrient}: integer-typed '{u}' -> '{v}' raised {classify(e)}", s, nutrient=nutrient, u=u, v=v)
                     if x.is_list_monthly():
                         # one month taken out of a series (by index and by get_month): converting before or after must agree,
                         # in value and in the form (each month / per month / total) of the labels
